@@ -58,6 +58,7 @@ PLAN = {
     "C01": (["mix", "mix", "expiry", "size", "load", "deadline", "persist", "stats"],
             ["Cfg_plain", "Cfg_writing", "Cfg_count", "Cfg_weightAll"]),
     "C03": (["expiry"], ["Cfg_creating", "Cfg_writing", "Cfg_accessing", "Cfg_custom", "Cfg_countExp"]),
+    "C06": (["expiry", "mix", "size", "load", "sweep"], ["Cfg_writing", "Cfg_countExp", "Cfg_weightAll"]),
     "C07": (["size", "size", "sweep", "mix"], ["Cfg_count", "Cfg_countExp", "Cfg_weight", "Cfg_weightAll"]),
     "C10": (["load", "load", "stats"], ["Cfg_plain", "Cfg_writing", "Cfg_refresh", "Cfg_count"]),
     "C11": (["load"], ["Cfg_refresh", "Cfg_refreshC", "Cfg_refreshX", "Cfg_weightAll"]),
@@ -237,6 +238,18 @@ def run(prop, tier, replay=None):
 
 
 def finish(prop, tier, t0, cov, violations, known, broken):
+    if prop == "C06" and not broken:
+        # concurrent half of C06: gate-scheduled writers audited by WRAudit.tla (conservation, exactly once, order)
+        import wrcheck
+        wcov, wviol, wbroken = wrcheck.run("C06", tier, None, collect_only=True)
+        cov["concurrent_audits"] = wcov["traces_validated_against_impl"]
+        cov["traces_validated_against_impl"] += wcov["traces_validated_against_impl"]
+        cov["states"] += wcov["states"]
+        cov["transitions"] += wcov["transitions"]
+        cov["mc_configs"] += wcov["mc"]
+        broken += wbroken
+        for x, sc, path in wviol:
+            violations.append(({"op": "concurrent", "pre": "", "field": x["pred"], "want": "", "got": x["detail"], "cfg": sc.get("size")}, path))
     if prop == "C20" and not broken:
         # concurrent form of C20: tallies of gate-scheduled / free-running histories judged by StatsHist.tla
         import c02check
